@@ -72,7 +72,7 @@ def _full_slice_text(fnode, expr, depth=8) -> str:
 
 @rule(
     "SIG-COMPLETE",
-    ["C13", "C10", "C04"],
+    ["C13", "C10", "C04", "C14"],
     "the string hashed by naming.compute_signature slices back to: each form's UFL signature / each "
     "expression's renumbered signature (renumbering built from coefficients, constants, arguments and "
     "domains) and its evaluation points, ffcx.__version__, the ufcx.h hash, the kind and the caller's "
@@ -87,7 +87,7 @@ def sig_complete(repo, res):
     _sig_complete(repo, res)
     for f_ in res.findings:
         extra = (("C10",) if "option" in f_.msg.lower() else ()) + (("C04",) if "points" in f_.msg.lower() or ":points" in f_.key else ())
-        f_.props = ("C13",) + extra
+        f_.props = ("C13", "C14") + extra   # C14: on a shared cache the later of two conflated requests is handed the other one's module
 
 
 def _sig_complete(repo, res):
@@ -586,11 +586,15 @@ def rule_scoped_names(repo, res):
     from ..absint import Interp as _I, Node as _N, Raised as _R, _PyCall as _PC
     from ..lnodes_model import load_classes as _lc
 
-    it_ = _I(repo, _lc(repo), primary="ffcx.codegeneration.symbols")
+    from ..npmodel import NDArr as _NDArr, install_arrays as _ia
+
+    it_ = _ia(_I(repo, _lc(repo), primary="ffcx.codegeneration.symbols"))
     it_.obj_classes["FFCXBackendSymbols"] = "ffcx.codegeneration.symbols"
     symbols = _N("FFCXBackendSymbols", quadrature_weight_tables={})
-    r0 = _N("QuadratureRule", id=_PC(lambda: "aaaa000000"))
-    r1 = _N("QuadratureRule", id=_PC(lambda: "bbbb111111"))
+    # two rules of one kernel with the same weights at different points (vertex scheme and the degree-2 rule of a triangle: 3 x 1/6 each)
+    w_ = [1.0 / 6] * 3
+    r0 = _N("QuadratureRule", id=_PC(lambda: "aaaa000000"), weights=_NDArr(list(w_), (3,)), points=_NDArr([[0.0, 0.0], [1.0, 0.0], [0.0, 1.0]], (3, 2)))
+    r1 = _N("QuadratureRule", id=_PC(lambda: "bbbb111111"), weights=_NDArr(list(w_), (3,)), points=_NDArr([[1.0 / 6, 1.0 / 6], [1.0 / 6, 2.0 / 3], [2.0 / 3, 1.0 / 6]], (3, 2)))
     try:
         s0 = it_.call_f(f, [symbols, r0])
         s1 = it_.call_f(f, [symbols, r1])
